@@ -65,6 +65,19 @@ ReadThrough(b, k, e) ==
                       n |-> k, err |-> e, elim |-> 0, from |-> pos]
     /\ UNCHANGED <<lim, slen>>
 
+(* DRIVER MODES.  The reader is not only driven by direct Read calls: io.Copy, *)
+(* io.CopyBuffer, io.CopyN, io.ReadAll (and whatever optional interface the   *)
+(* object offers them: io.WriterTo, io.ByteReader, ...) pull from it with     *)
+(* buffers of their own choosing, which the environment cannot see.  What it  *)
+(* can see is the request that reaches r: DriverRead(m, k, e) is "some Read   *)
+(* (or equivalent) asked r for m bytes and got (k, e)" - a ReadThrough step   *)
+(* for SOME buffer length, so every invariant above applies unchanged: r is   *)
+(* never given room for byte n+1 however the reader is driven, every byte r   *)
+(* hands out is charged, and the direct Reads that follow find the state      *)
+(* (rem) those requests left behind.  Reads that answer with the limit error  *)
+(* inside a driver are invisible and change nothing.                          *)
+DriverRead(m, k, e) == \E b \in {m, m + 1} : ReadThrough(b, k, e) /\ rlast'.req = m
+
 Read(b) == ReadLimit(b) \/ \E k \in 0..b, e \in RErrs : ReadThrough(b, k, e)
 
 RNext == /\ rsteps < RMaxSteps
